@@ -11,13 +11,16 @@
 
    Implementation layer = the iterator as coded, one action per loop turn, on machine integers
    modulo M (M stands for 2^64).  Declarative layer = Decl.  The property is their equality.
-   Switches (FALSE = as coded at the pinned commit, TRUE = repaired):
+   Switches (FALSE = as coded at the pinned commit, TRUE = repaired — branch g10 of /repo):
      CheckedArith    iterator.Next() adds / subtracts the step without looking at overflow: a huge
                      step wraps round into the chain, so a "forward" request can be answered with
-                     lower blocks (and vice versa);
+                     lower blocks (and vice versa); repaired 7a6bfa4: the iteration ends at the bounds;
      NilIterChecked  newIterator dereferences request.Iteration without a nil check: a request
                      without an iteration (an EMPTY message) panics the stream handler's goroutine —
-                     the process dies. *)
+                     the process dies; repaired 2f31e28: refused like any other malformed iteration.
+   P2PServer_quick.cfg is the repaired iterator (the contract holds for every request),
+   P2PServer_ascoded.cfg the pinned commit (ConformsAsCoded: the contract outside the two defects),
+   P2PServer_x_wrap.cfg / _x_nil.cfg show each defect violating the contract on its own. *)
 EXTENDS Integers, Sequences, TLC
 
 CONSTANTS H,            \* the chain holds blocks 0 .. H-1
